@@ -29,8 +29,15 @@ def streams():
     return [C02Exact(), C02Float()]
 
 
+ASSUMPTIONS = [
+    "C02_inverter_partial / C02_group_partial carry the hypothesis side_ok (see C01); C02_inverter_multi (groups with >= 2 inverters), C02_no_headroom and C02_every_component_has_a_setpoint are unconditional on the run.",
+    "C02_no_headroom is stated for pow functions with pow(0) = 0 (every exponent > 0); exponent 0 gives a full battery a share by documented design (known finding C02-exponent0-full-battery).",
+    "C02_group at full strength is false (C02_group_refuted, known finding C02-split-leftover); C02_group_partial assumes the group's split left nothing over.",
+    "Requests with |p| <= 1e-9 W are outside the theorems; component ids pairwise distinct; admission condition as in C01.",
+]
+
 META = {
-    "technique": "Coq proof over an executable Q model of the distribution algorithm + differential correspondence + property oracle",
-    "level_text": "TODO",
-    "level_note": "TODO",
+    "technique": "Coq proofs over the same executable Q model as C01 (phase-by-phase invariants: reservation, deficit covering, greedy top-up, split over inverters; permutation lemmas for the two sorts) + differential correspondence of the real distribute_power on exact rationals vs the model evaluated in Coq + property oracle on the implementation's output with coded known-finding triggers",
+    "level_text": "Machine-checked, closed under the global context: C02_inverter_multi (every set-point of a group with >= 2 inverters is zero or inside that inverter's inclusion bounds and outside its exclusion zone, unconditionally), C02_inverter_partial (all inverters, under side_ok), C02_group_partial (group total inside the aggregated battery inclusion bounds; zero or outside the battery exclusion zone when the split left nothing over), C02_group_refuted (vm_compute witness: the clause is false at full strength), C02_no_headroom (zero on every inverter of a group without SoC headroom, for every pow with pow(0)=0), C02_every_component_has_a_setpoint (result groups are a permutation of the input groups, set-point ids a permutation of the group's inverter ids). Correspondence and oracle as for C01; boundary requests (exactly the advertised exclusion bound, exactly the inclusion bound) are generated explicitly.",
+    "level_note": "Partial for single-inverter groups and group totals (hypothesis side_ok, checked by evaluation on every in-domain case). Known findings: C02-split-leftover (group with >= 2 inverters whose exclusion/inclusion bounds cannot realise the group's power; trigger coded on input + observed set-points), C02-exponent0-full-battery (documented behaviour). The unchanged tree violated C02 (findings F2, F3: fixed by commits fcfd05e, ccb79d8; witnesses in corpus/C02). Trusted base as for C01.",
 }
